@@ -245,6 +245,7 @@ impl Command {
         state::with(|s| {
             s.alive += 1;
             s.max_alive = s.max_alive.max(s.alive);
+            s.children[ord].spawn_clock_ms = s.clock_ms;
             let args = self.args.join(" ");
             s.event(|| format!("spawn #{ord} {} {args}", self.program));
         });
@@ -629,6 +630,7 @@ impl Child {
             drop(g);
             state::with(|s| {
                 s.children[ord].killed = true;
+                s.children[ord].killed_clock_ms = s.clock_ms;
                 s.event(|| format!("kill #{ord}"));
             });
         }
